@@ -10,6 +10,9 @@ IDENTS = [
     "V2", "Hello2You", "TLSv13", "Vec3D", "A", "B", "Ab", "ABC", "IOError", "Snake_Case", "mixed_Case_name",
     "lower", "UPPER", "Trailing_", "__Dunder", "X1", "Point3d", "MyURLParser", "Id", "ID2", "NotFound404",
     "Ok200", "E", "Zeta", "Alpha1Beta2", "OneTwoThree", "Web2Print", "Q", "Rgb8", "BGRA", "ToDo",
+    # names that differ only in letter case / only after snake-casing, and names the templates or the prelude also use
+    "Mb", "MB", "Ok", "OK", "Io_Error", "IO_ERROR", "SetUp", "Setup", "LogIn", "Login", "FooBar", "Foobar",
+    "Err", "None", "Some", "Error", "Result", "Item", "Output", "Default", "Iter", "Table", "Discriminant", "Value",
 ]
 
 FIELD_NAMES = ["f", "s", "x", "idx", "value", "prop", "field0", "a", "b", "name", "inner", "fmt", "val", "self_", "other", "n", "y", "z"]
@@ -60,8 +63,12 @@ def pick_idents(r, n, pool=None, avoid_snake_collisions=False):
 
 def rand_fields(r, kind, nmax=3, types=None, generics=None, distinct_types=False):
     types = list(types or SAFE_TYPES)
-    if generics in ("T", "Tw", "TU", "aT", "TN", "aTw", "Tdef", "TNdef"):
+    if generics in ("T", "Tw", "TU", "aT", "TN", "aTw", "Tdef", "TNdef", "aTwd", "TwU"):
         types.append("T")
+    if generics == "TwU":
+        types.append("U")
+    if generics == "aTwd":
+        types.append("RefStr")
     if generics == "TNdef":
         types.append("CG")
     if generics == "aTw":
@@ -93,7 +100,8 @@ def ensure_generics_used(r, spec):
     """Every declared generic parameter must be used by some field, otherwise rustc rejects the enum."""
     g = spec.generics
     need = {"T": ["T"], "Tw": ["T"], "TU": ["T", "U"], "a": ["RefStr"], "aT": ["RefStr", "T"], "N": ["CG"], "TN": ["T", "CG"],
-            "aTw": ["RefStr", "T"], "I": ["Item"], "aI": ["RefItem"], "Tdef": ["T"], "TNdef": ["T", "CG"]}.get(g, [])
+            "aTw": ["RefStr", "T"], "I": ["Item"], "aI": ["RefItem"], "Tdef": ["T"], "TNdef": ["T", "CG"],
+            "aTwd": ["RefStr", "T"], "TwU": ["T", "U"]}.get(g, [])
     used = {f.ty for v in spec.variants for f in v.fields}
     missing = [t for t in need if t not in used]
     if not missing:
@@ -105,6 +113,46 @@ def ensure_generics_used(r, spec):
         ident += "X"
     v = Variant(ident=ident, kind="tuple", fields=fields)
     spec.variants.insert(r.randint(0, len(spec.variants)), v)
+
+
+NOISE_MSGS = ["noise message", "", "{braces}"]
+
+
+def add_noise(r, spec, enum_level=True, variant_level=True, skip=()):
+    """Attributes that are consumed by OTHER derives than the one under test (plus foreign helper attributes):
+    they must not influence the derive under test."""
+    if enum_level:
+        if "serialize_all" not in skip and spec.serialize_all is None and r.random() < 0.4:
+            spec.serialize_all = r.choice(model.STYLE_STRINGS)
+        if "aci" not in skip and r.random() < 0.3:
+            spec.aci = True
+        if "prefix" not in skip and spec.prefix is None and r.random() < 0.25:
+            spec.prefix = r.choice(PREFIXES)
+        if r.random() < 0.5:
+            spec.attr_order_seed = r.randint(1, 6)
+    if variant_level:
+        unit = [v for v in spec.variants if v.kind == "unit"]
+        if "std_default" not in skip and unit and not spec.generics and r.random() < 0.3 and "Default" not in spec.std_derives:
+            # #[derive(Default)] with its #[default] helper attribute on one unit variant
+            spec.std_derives = list(spec.std_derives) + ["Default"]
+            r.choice(unit).extra_attrs.append("#[default]")
+        for v in spec.variants:
+            if "serialize" not in skip and not v.serialize and v.to_string is None and r.random() < 0.2:
+                v.serialize = ["noise-%s" % v.ident]
+            if "aci" not in skip and v.aci is None and r.random() < 0.2:
+                v.aci = r.random() < 0.6
+            if "message" not in skip and v.message is None and r.random() < 0.2:
+                v.message = r.choice(NOISE_MSGS)
+            if "props" not in skip and not v.props and r.random() < 0.2:
+                v.props = [[("noise", "str", "n"), ("k", "int", 1)]]
+            if "docs" not in skip and not v.docs and r.random() < 0.2:
+                v.docs = [("///", " noise doc")]
+            if r.random() < 0.15:
+                v.extra_attrs.append(r.choice(["#[allow(dead_code)]", "#[cfg(all())]", "#[allow(non_camel_case_types, dead_code)]"]))
+            if r.random() < 0.3:
+                v.split_attrs = r.choice([0, 1, 2])
+                v.attr_order_seed = r.randint(0, 9)
+    return spec
 
 
 def all_masks(n):
